@@ -588,6 +588,14 @@ def oracle(case, v):
             if not approx(em[i], want, abs(idx[i]) * fm[0] * 1e-3):
                 bad.append(('segment', f'trajectory {s}[{i}] = {em[i]} but index*fuel = {want} (inside={inside})'))
                 break
+            # the three quantities exactly as the returned object reports them: amount = index x per-segment fuel,
+            # at every point (outside the accounting window too: a zero amount next to a non-zero index and a
+            # non-zero reported burn is not "index times fuel burned in that segment")
+            rep = idx[i] * v['fb'][i] if i < len(v['fb']) else None
+            if rep is None or not approx(em[i], rep, abs(idx[i]) * fm[0] * 1e-3):
+                bad.append(('segment', f'trajectory {s}[{i}]: reported amount {em[i]} != reported index {idx[i]} x '
+                                       f'reported fuel_burn_per_segment {v["fb"][i] if i < len(v["fb"]) else None}'))
+                break
     tims = {m: float(ICAO_TIM[m]) for m in MODES}
     counted = lto_modes_counted(cfg)
     lto_fuel = {m: (tims[m] * lto['fuel_flow'][k] if m in counted else 0.0) for k, m in enumerate(MODES)}
